@@ -128,6 +128,8 @@ func RunBatch(env *Env, workdir string, jobs []*Job) (map[string]map[string]*VRe
 		v Variant
 		r *VRes
 	}
+	var envMu sync.Mutex
+	envErr := ""
 	var items []*item
 	for _, j := range jobs {
 		for _, v := range j.Variants {
@@ -174,12 +176,20 @@ func RunBatch(env *Env, workdir string, jobs []*Job) (map[string]map[string]*VRe
 			r.OutPath = filepath.Join(tsdir, pkgName(it)+".ts")
 		}
 		r.Gen = Generate(env.CLI, it.v, in, r.OutPath, 60*time.Second)
+		if r.Gen.HarnessErr != "" {
+			envMu.Lock()
+			envErr = r.Gen.HarnessErr
+			envMu.Unlock()
+		}
 		if !r.Gen.Failed() {
 			r.Source, _ = os.ReadFile(r.OutPath)
 		} else if it.v.IsGo() {
 			os.RemoveAll(filepath.Dir(r.OutPath))
 		}
 	})
+	if envErr != "" {
+		return nil, fmt.Errorf("the yaccgo CLI could not be run properly on this machine: %s", envErr)
+	}
 	for _, it := range items {
 		if it.v.IsGo() && !it.r.Gen.Failed() {
 			if it.j.Race {
